@@ -116,11 +116,14 @@ def configs(t):
     # a stop / restart of an application is in flight when the shutdown is requested
     out.append(base('stop_process-then-shutdown', [A2, B2], setup=[started(0, 'A', 'CONFIG'), started(1, 'B', 'CONFIG')],
                     job_kind='ending', triggers=[['rpc', 0, 'stop_process', ['A:a', False]], ['rpc', 0, 'shutdown', []]],
-                    T=5, cost=5))
+                    T=5, cost=5, behaviours=['run']))      # slow stops: STOPPING lasts until the closure
+    out.append(base('stop_application-then-restart', [A2, B2], setup=[started(0, 'A', 'CONFIG'), started(1, 'B', 'CONFIG')],
+                    job_kind='ending', triggers=[['rpc', 0, 'stop_application', ['A', False]], ['rpc', 1, 'restart', []]],
+                    T=5, cost=5, behaviours=['run']))
     out.append(base('restart_application-then-shutdown', [A2, B2],
                     setup=[started(0, 'A', 'CONFIG'), started(1, 'B', 'CONFIG')], job_kind='ending',
                     triggers=[['rpc', 0, 'restart_application', ['CONFIG', 'A', False]], ['rpc', 1, 'shutdown', []]],
-                    T=5, cost=5))
+                    T=5, cost=5, behaviours=['run']))
     # slow stops: the instance is lost while its process is STOPPING (the acknowledgement came, not the end)
     A3 = app('A', 0, [prog('a', 1, stop_sequence=2, identifiers='10.0.0.2:25001'), prog('b', 2, stop_sequence=1)],
              stop_sequence=1)
